@@ -168,7 +168,12 @@ func (n *recNode) Process(ctx context.Context, e *el.Event) (*el.Event, error) {
 		err = fmt.Errorf("injected error #%d at node %s for %s", h.errSeq, n.Label, lin)
 		// the dynamic type of a node's error is the node's business: aggregates,
 		// typed nil pointers and joined errors are errors like any other
-		switch (h.errSeq + len(n.Label)) % 5 {
+		switch (h.errSeq + len(n.Label)) % 7 {
+		case 4:
+			// a node's own deadline: the error wraps a context error although the Send's context is alive
+			err = fmt.Errorf("injected error #%d at node %s for %s: %w", h.errSeq, n.Label, lin, context.DeadlineExceeded)
+		case 5:
+			err = fmt.Errorf("injected error #%d at node %s for %s: %w", h.errSeq, n.Label, lin, context.Canceled)
 		case 1:
 			err = &multierror.Error{Errors: []error{err, fmt.Errorf("injected error #%d (second cause) at node %s for %s", h.errSeq, n.Label, lin)}}
 		case 2:
